@@ -192,7 +192,7 @@ theorem acceptLoop_succeeds (to : Addr) (froms : List Addr) :
     | none => exact ih s rel inv snap.tail hcov
     | some r1 =>
       simp only
-      obtain ⟨hk1, hc1, hu1, hnow⟩ := acceptFrom_some haf
+      obtain ⟨hk1, hc1, hu1, hnow, _⟩ := acceptFrom_some haf
       cases hfa : r1.isFullyAccepted
       · simp only [Bool.false_eq_true, if_false]
         generalize hr2 : ({ r1 with declined := isAutoDecline s to r1.unacc } : Record) = r2
